@@ -21,6 +21,8 @@ def scenarios(rng, tier):
             kw.update(wifi=rng.choice([0, 1, 2, 3, 255]), bssid=bytes(rng.randrange(256) for _ in range(6)), ssid=bytes((rng.randrange(1, 256) if k % 5 else rng.choice([0, rng.randrange(256)])) for _ in range(k % 41)),
                       rate=rng.choice([0, 1, 0xFF, 0x100, 108, 0xFFFF, rng.randrange(65536)]), rssi=rng.choice([-128, -127, -70, -1, 0, 1, 127]))
             if rng.random() < 0.5: kw['phy'] = rng.choice([1, 2, 7])
+        if wifi and k % 16 == 5: kw['bssid'] = kw['mac']               # a station that hosts its own BSS: BSSID = own address
+        if wifi and k % 16 == 13: kw['bssid'] = bytes(6)
         fails = [f for f in ('iftypefail', 'ipv4fail', 'ipv6fail', 'speedfail', 'bssidfail', 'ratefail', 'rssifail', 'macfail') if rng.random() < (0.15 if k % 3 == 0 else 0.25 if k % 4 == 2 else 0.0)]
         for f in fails: kw[f] = 1
         cfg = Cfg(0, **kw)
